@@ -26,6 +26,21 @@ from pedal.sandbox.result import SandboxResult
 from pedal.sandbox.tracer import TRACER_STYLES
 
 
+def _contains_non_finite_float(value):
+    """
+    Whether the value is (or is a builtin container holding) ``inf`` or ``nan``,
+    whose ``repr`` is a bare name instead of an evaluable literal.
+    """
+    if isinstance(value, float):
+        return value != value or value in (float('inf'), float('-inf'))
+    if isinstance(value, (list, tuple, set, frozenset)):
+        return any(_contains_non_finite_float(item) for item in value)
+    if isinstance(value, dict):
+        return any(_contains_non_finite_float(item)
+                   for pair in value.items() for item in pair)
+    return False
+
+
 class Sandbox:
     """
     Args:
@@ -734,7 +749,8 @@ class Sandbox:
         """
         if isinstance(value, SandboxVariable):
             return value.name
-        if len(repr(value)) <= self.MAXIMUM_TEMPORARY_LENGTH:
+        if (len(repr(value)) <= self.MAXIMUM_TEMPORARY_LENGTH
+                and not _contains_non_finite_float(value)):
             return repr(value)
         key = '_temporary_{}_{}'.format(category, name)
         if key in self.data:
